@@ -260,7 +260,7 @@ class SAConc:
     def mem(self, E, p, n):
         from qv.esp import ptr_add
         if isinstance(p, tuple) and p[0] == 'str':
-            return bytes((ord(c) & 255) for c in p[1])[:n] if n <= len(p[1]) + 1 else None
+            return (bytes((ord(c) & 255) for c in p[1]) + b'\0')[:n] if n <= len(p[1]) + 1 else None
         out = []
         for k in range(n):
             q = ptr_add(p, k) if isinstance(p, tuple) else None
